@@ -599,3 +599,98 @@ theorem loadFile_noFuel (W : World) (hW : W.WF) :
         exact ⟨c, hc⟩
 
 end ParamsLoad
+
+/-! ## more fuel changes nothing once the fuel was enough -/
+namespace ParamsLoad
+
+theorem loadFilesWith_more (rec rec' : Repo → Nat → Params → Except Err Repo)
+    (h : ∀ repo g mp, rec repo g mp ≠ .error .fuel → rec' repo g mp = rec repo g mp) :
+    ∀ gs repo p, loadFilesWith rec repo gs p ≠ .error .fuel →
+      loadFilesWith rec' repo gs p = loadFilesWith rec repo gs p := by
+  intro gs
+  induction gs with
+  | nil => intro repo p _; rfl
+  | cons g gs ih =>
+    intro repo p hne
+    cases p with
+    | none => rfl
+    | some mp =>
+      by_cases hg : has repo g = true
+      · simp only [loadFilesWith, hg, if_true] at hne ⊢
+        exact ih repo (some mp) hne
+      · have hg' : has repo g = false := by simpa using hg
+        simp only [loadFilesWith, hg', Bool.false_eq_true, if_false] at hne ⊢
+        cases hr : rec repo g mp with
+        | error e =>
+          simp only [hr] at hne
+          have := h repo g mp (by rw [hr]; exact hne)
+          rw [this, hr]
+        | ok repo1 =>
+          simp only [hr] at hne
+          have := h repo g mp (by rw [hr]; simp)
+          rw [this, hr]
+          exact ih repo1 (some mp) hne
+
+theorem loadStmtsWith_more (rec rec' : Repo → Nat → Params → Except Err Repo)
+    (h : ∀ repo g mp, rec repo g mp ≠ .error .fuel → rec' repo g mp = rec repo g mp) :
+    ∀ ss repo p, loadStmtsWith rec repo ss p ≠ .error .fuel →
+      loadStmtsWith rec' repo ss p = loadStmtsWith rec repo ss p := by
+  intro ss
+  induction ss with
+  | nil => intro repo p _; rfl
+  | cons fs rest ih =>
+    intro repo p hne
+    by_cases hfs : fs = []
+    · simp [loadStmtsWith, hfs]
+    · simp only [loadStmtsWith, hfs, if_false] at hne ⊢
+      cases hr : loadFilesWith rec repo fs p with
+      | error e =>
+        simp only [hr] at hne
+        rw [loadFilesWith_more rec rec' h fs repo p (by rw [hr]; exact hne), hr]
+      | ok repo1 =>
+        simp only [hr] at hne
+        rw [loadFilesWith_more rec rec' h fs repo p (by rw [hr]; simp), hr]
+        exact ih repo1 p hne
+
+theorem loadFile_succ_eq (W : World) (fuel : Nat) (repo : Repo) (f : Nat) (mp : Params) :
+    loadFile W (fuel + 1) repo f mp =
+      match W.files[f]? with
+      | none => .error (.noFile f)
+      | some spec =>
+        if spec.broken then .error (.syntax f)
+        else loadStmtsWith (loadFile W fuel) (repo ++ [{ file := f, params := some mp }])
+          (effImports W spec (some mp)) (some mp) := rfl
+
+theorem loadFile_succ (W : World) :
+    ∀ fuel repo f mp, loadFile W fuel repo f mp ≠ .error .fuel →
+      loadFile W (fuel + 1) repo f mp = loadFile W fuel repo f mp := by
+  intro fuel
+  induction fuel with
+  | zero => intro repo f mp hne; exact absurd rfl hne
+  | succ n ih =>
+    intro repo f mp hne
+    rw [loadFile_succ_eq W n repo f mp] at hne
+    rw [loadFile_succ_eq W (n + 1) repo f mp, loadFile_succ_eq W n repo f mp]
+    cases hs : W.files[f]? with
+    | none => rfl
+    | some spec =>
+      simp only [hs] at hne ⊢
+      by_cases hb : spec.broken = true
+      · simp [hb]
+      · simp only [hb, Bool.false_eq_true, if_false] at hne ⊢
+        exact loadStmtsWith_more (loadFile W n) (loadFile W (n + 1)) ih _ _ _ hne
+
+theorem loadFile_more (W : World) (n m : Nat) (hnm : n ≤ m) (repo : Repo) (f : Nat) (mp : Params)
+    (hne : loadFile W n repo f mp ≠ .error .fuel) : loadFile W m repo f mp = loadFile W n repo f mp := by
+  induction m with
+  | zero =>
+    have : n = 0 := by omega
+    subst this; rfl
+  | succ m ih =>
+    by_cases h : n = m + 1
+    · subst h; rfl
+    · have hle : n ≤ m := by omega
+      have e := ih hle
+      rw [loadFile_succ W m repo f mp (by rw [e]; exact hne), e]
+
+end ParamsLoad
